@@ -71,6 +71,70 @@ def path_conditions(src, pos):
     return [c for _, c in stack if c is not None]
 
 
+# Every place that can make a suspended fiber runnable, by enclosing function.  A janet_schedule / janet_cancel call in a function
+# that is neither a listener callback (signature `(JanetFiber *fiber, JanetAsyncEvent event)`: reached only through
+# `stream->read_fiber / write_fiber` of a fiber that still listens) nor named here is a wake-up source the model does not know.
+WAKE_SITES = {
+    "janet_channel_push_with_lock": "channel (reader woken by a give): pushSkipsStale",
+    "janet_channel_pop_with_lock": "channel (writer woken by a take): popSkipsStale",
+    "janet_channel_pop": "channel (immediate take, the running fiber itself)",
+    "cfun_channel_pop": "channel (immediate take, the running fiber itself)",
+    "cfun_channel_close": "channel close: closeChecks",
+    "janet_thread_chan_cb": "thread channel (property C08; compares the generation)",
+    "janet_loop1": "timers: timerCheck / deadlineChecks",
+    "janet_loop": "re-schedule of an interrupted task (not a wait)",
+    "janet_ev_default_threaded_callback": "threaded await (os/shell, ev/thread): threadCheck",
+    "cfun_ev_go": "request: ev/go", "cfun_ev_thread": "request", "janet_go_thread_subr": "request: first run of a thread's main fiber",
+    "cfun_ev_cancel": "request: ev/cancel",
+    "janet_proc_wait_cb": "process wait: procCheck / procErrCheck",
+    "janet_signal_callback": "os/sigaction handler: runs in a fresh fiber, no waiter involved",
+}
+
+
+def wake_sites(tree):
+    """-> {function name: (category, number of call sites)} ; ExtractError for an unclassified function"""
+    out = {}
+    for rel in ("src/core/ev.c", "src/core/net.c", "src/core/os.c", "src/core/filewatch.c", "src/core/io.c"):
+        try:
+            src = csrc.strip_comments(csrc.read(tree, rel))
+        except Exception:
+            continue
+        # top-level function definitions: name, parameter text, body span
+        funcs = []
+        for m in re.finditer(r"(?m)^(?:[A-Za-z_][\w \t\*]*?[ \*])?([A-Za-z_]\w*)\s*\(([^;{}]*?)\)\s*\{", src):
+            # JANET_CORE_FN(name, "usage", "doc") { ... }
+            name, params = m.group(1), m.group(2)
+            if name in ("if", "while", "for", "switch"):
+                continue
+            if name == "JANET_CORE_FN":
+                name = params.split(",")[0].strip()
+            o = m.end() - 1
+            try:
+                e = csrc.match_brace(src, o)
+            except Exception:
+                continue
+            funcs.append((o, e, name, params))
+        for m in re.finditer(r"\bjanet_(?:schedule|schedule_soon|schedule_signal|cancel)\s*\(", src):
+            encl = [f for f in funcs if f[0] < m.start() < f[1]]
+            if not encl:
+                continue                      # a prototype / the definition itself
+            o, e, name, params = min(encl, key=lambda f: f[1] - f[0])
+            if name in ("janet_schedule", "janet_cancel", "janet_schedule_signal", "janet_schedule_soon", "janet_schedule_general"):
+                continue
+            if re.search(r"JanetFiber\s*\*\s*\w+\s*,\s*JanetAsyncEvent\s+\w+", params):
+                cat = "listener callback: didResumeDetaches / didResumeFirst"
+            elif name in WAKE_SITES:
+                cat = WAKE_SITES[name]
+            else:
+                raise ExtractError("%s: %s() makes a fiber runnable (janet_schedule / janet_cancel) but is not a wake-up source the "
+                                   "C07 model knows" % (rel, name))
+            k = rel.split("/")[-1] + ":" + name
+            out[k] = (cat, out.get(k, (cat, 0))[1] + 1)
+    if len(out) < 15:
+        raise ExtractError("expected >= 15 functions with wake-up sites, found %d" % len(out))
+    return out
+
+
 def extract(tree):
     ev = csrc.strip_comments(csrc.read(tree, "src/core/ev.c"))
     osc = csrc.strip_comments(csrc.read(tree, "src/core/os.c"))
@@ -226,6 +290,7 @@ def extract(tree):
             raise ExtractError("%s: registration no longer records the current generation (`%s`)" % (fn, pat))
     if "to.when=ts_delta(ts_now(),sec);" not in sq(body(ev, "janet_sleep_await")):
         raise ExtractError("janet_sleep_await: `to.when = ts_delta(ts_now(), sec)` not recognised")
+    wake_sites(tree)          # completeness: raises when a new, unclassified wake-up source appears
     return c
 
 
